@@ -614,6 +614,16 @@ def corpus() -> List[Tuple[str, Any]]:
     out.append(('star-in-cycle', {'mods': [
         M('a', [cls('A0'), ['star', 0, 'b'], cls('A1', ['B0'])]),
         M('b', [cls('B0'), ['star', 0, 'a'], cls('B1', ['A0']), cls('B2', ['A1'])])], 'queries': []}))
+    # C06-stale-defining-module-name in its duplicate-definition variant: the class that refers to the re-exported object
+    # through the defining module is defined twice, so the superseded definition lives on as 'm1.K3 0' and differs too
+    out.append(('stale-ref-duplicate-class', {'mods': [
+        M('m0', [['var', 'v1', 'doc v1'], cls('_K2', members=[[0, 'a2_0', 'doc a2_0'], [1, 'a2_1', 'doc a2_1']])], pkg=True,
+          doc='doc of module 0'),
+        M('m1', [frm('m0', '_K2'), frm('m0', '_K2'), cls('K3', ['_K2'], members=[[1, 'a3_0', 'doc a3_0'], [0, 'a3_1', None]]),
+                 ['def', 'f4', 'doc f4'], cls('K5', ['K3', '_K2']), cls('K3', ['_K2'], doc='second definition of K3')]),
+        M('_m2', [frm('m0', '_K2'), frm('m0', ['_K2', 'K2_as2']), cls('K6', ['K2_as2'], members=[[1, 'a6_0', None], [1, 'a6_1', None]]),
+                  ['all', ['_K2', 'K6']]], parent=0, pkg=True, doc='doc of module 2')],
+        'queries': [['m1.K3', 'm0._K2'], ['m1.K3', 'm1.K3']]}))
     # the witness of C06_rebound_import_in_cycle_refuted: a name imported twice in a module on an import cycle
     out.append(('rebound-import-in-cycle', {'mods': [
         M('a', [frm('c', 'Z'), cls('X', doc='a.X')]),
